@@ -4,6 +4,8 @@ import (
 	"context"
 	"errors"
 	"io"
+	"os"
+	"strconv"
 	"sync"
 	"sync/atomic"
 	"testing"
@@ -16,6 +18,8 @@ import (
 
 	pbv1 "github.com/obolnetwork/charon/core/corepb/v1"
 	"github.com/obolnetwork/charon/p2p"
+
+	"verifharness/drv"
 )
 
 type fakeHost struct {
@@ -50,12 +54,20 @@ func (s *fakeStream) Read(b []byte) (int, error) {
 	return 1, nil
 }
 
-// TestAddResultRace: concurrent results for ONE peer (the normal situation: SendAsync of several duties / consensus messages).
+// TestAddResultRace is a probe, not a verdict: concurrent results for ONE peer (the normal situation: SendAsync of several
+// duties / consensus messages run at the same time) on the real Sender, for VERIF_RACE_SECONDS.  Sender.addResult reads the
+// peer's buffer in several steps (len, get) while other goroutines add to and trim it: "index out of range [4] with length
+// 4" -- the interleaving TLC finds in AddResultFine_ascoded_panic.cfg.
 func TestAddResultRace(t *testing.T) {
 	sender := new(p2p.Sender)
 	h := new(fakeHost)
 	var wg sync.WaitGroup
-	stop := time.Now().Add(20 * time.Second)
+	secs, _ := strconv.Atoi(os.Getenv("VERIF_RACE_SECONDS"))
+	if secs <= 0 {
+		t.Skip("VERIF_RACE_SECONDS not set")
+	}
+	drv.QuietLogs(t)
+	stop := time.Now().Add(time.Duration(secs) * time.Second)
 	for g := 0; g < 8; g++ {
 		wg.Add(1)
 		go func() {
